@@ -38,6 +38,15 @@ theorem Inv.init (cfg : Config) (inp : Bytes) (script : List Step) :
   · intro hs
     simp [LB.stopped, LB.init] at hs
 
+/-- the same for any reader state over `inp` (the BOM peek only splits the first reads) -/
+theorem Inv.init' (cfg : Config) (r : Reader) : Inv cfg r.data (LB.init cfg) r [] [] r.data := by
+  refine ⟨rfl, by simp, rfl, ?_, by simp [LB.init], by simp [LB.init], by simp [LB.init], Or.inr rfl, ?_, ?_⟩
+  · cases h : cfg.binary <;> simp [LB.init, BinDet.tr, h]
+  · unfold BinOK
+    cases h : cfg.binary <;> simp [LB.init, h, findByte]
+  · intro hs
+    simp [LB.stopped, LB.init] at hs
+
 theorem Inv.mlen {cfg inp s r a m rest} (h : Inv cfg inp s r a m rest) :
     m.length = s.buf.length - s.pos := by
   have := congrArg List.length h.hwin
